@@ -84,7 +84,7 @@ TAddRecord == Ev("AddRecord") /\ Step /\ Quiet /\ AddRecord(Rec[l].k, Rec[l].x) 
 
 TBuilt ==
   /\ Ev("Built") /\ Step /\ Quiet /\ phase = "connected"
-  /\ Range(Rec[l].proj.terms) \subseteq {t @@ [rgene |-> t.gene, romim |-> t.omim, rorpha |-> t.orpha, rallp |-> t.allp] : t \in Range(Proj.terms)}
+  /\ Range(Rec[l].proj.terms) \subseteq {t @@ [rgene |-> t.gene, romim |-> t.omim, rorpha |-> t.orpha, rallp |-> t.allp, rparents |-> t.parents, rchildren |-> t.children] : t \in Range(Proj.terms)}
   /\ Len(Rec[l].proj.terms) = Len(arena)
   /\ Same
 
